@@ -1,3 +1,5 @@
+import PV.Model.BufStream
+import PV.Lemmas.BufStream
 import PV.Model.Io
 import PV.Model.Reader
 import PV.Spec.Records
@@ -61,5 +63,41 @@ theorem records_schedule_independent (delim : UInt8) (stripCr : Bool) (cap0 : Na
 example : writeOrThrow [1, 2, 3, 4, 5] [1, 0, 2] = .ok [1, 2, 3, 4, 5] [5, 4, 4, 2] := by decide
 example : readOrEOF 10 [1, 2, 3, 4, 5] [2, 0, 1] = .ok [1, 2, 3, 4, 5] [10, 8, 8, 7, 5] := by decide
 example : Benign [1, 0, 2] := by unfold Benign; decide
+
+/-! #### BufferedStream (util/buffered_stream.hh), the layer above WriteOrThrow on every tool's output -/
+section BufStream
+open PV.BufStream
+
+/-- at every moment: what the writer has received followed by what sits in the buffer is exactly the concatenation
+    of the bytes of all operations so far, in order; and the buffer never exceeds its capacity. -/
+theorem bufstream_invariant (cap : Nat) (ops : List Op) (hw : WF cap ops) :
+    (run cap ops).chunks.flatten ++ (run cap ops).buf = (ops.map Op.bytes).flatten ∧ (run cap ops).buf.length ≤ cap := by
+  have h := PV.Lemmas.BufStream.run_inv hw
+  exact ⟨h.1, h.2.1⟩
+
+/-- after the destructor the writer has received exactly the bytes of all operations, in order, whatever the sizes
+    (smaller than, equal to, larger than the buffer) and wherever numbers were formatted in place. -/
+theorem bufstream_delivers (cap : Nat) (ops : List Op) (hw : WF cap ops) :
+    (finish cap ops).chunks.flatten = (ops.map Op.bytes).flatten ∧ (finish cap ops).buf = [] := by
+  have h := PV.Lemmas.BufStream.run_inv hw
+  refine ⟨?_, PV.Lemmas.BufStream.step_flush_buf cap _⟩
+  unfold finish
+  rw [PV.Lemmas.BufStream.step_flush_flat]
+  exact h.1
+
+/-- a flush leaves nothing behind, and the writer is never handed an empty chunk. -/
+theorem bufstream_flush_and_chunks (cap : Nat) (ops : List Op) (hw : WF cap ops) :
+    (step cap (run cap ops) .flush).buf = [] ∧ ∀ c ∈ (run cap ops).chunks, c ≠ [] := by
+  have h := PV.Lemmas.BufStream.run_inv hw
+  exact ⟨PV.Lemmas.BufStream.step_flush_buf cap _, h.2.2⟩
+
+-- non-vacuity (cap 4): "abc", a 2-byte number with Ensure(3), then a 6-byte write that bypasses the buffer
+example : (finish 4 [.write [97, 98, 99], .put 3 [49, 50], .write [1, 2, 3, 4, 5, 6]]).chunks = [[97, 98, 99], [49, 50], [1, 2, 3, 4, 5, 6]] := by decide
+example : WF 4 [.write [97, 98, 99], .put 3 [49, 50], .write [1, 2, 3, 4, 5, 6]] := by
+  intro o ho
+  simp only [List.mem_cons, List.not_mem_nil, or_false] at ho
+  rcases ho with rfl | rfl | rfl <;> simp
+
+end BufStream
 
 end PV.Props.C03
